@@ -345,6 +345,38 @@ def _solve(les, eqs, nes):
     les = list(les)
     nes = list(nes)
     pending = []
+    rounds = 0
+    while True:
+        r = _eliminate(eqs, les, nes, pending)
+        if r is True:
+            return True
+        eqs, les, nes, pending = r
+        # a pair L <= 0, -L <= 0 that appears only after the substitutions is an equality too: eliminating it keeps
+        # the integrality information (gcd test, unit pivots) that Fourier-Motzkin would lose
+        rounds += 1
+        if rounds > 4 or len(les) < 2:
+            break
+        keys = {}
+        for L in les:
+            if L.t:
+                keys.setdefault(L.key(), L)
+        found = []
+        for k, L in keys.items():
+            nk = (-L).key()
+            if nk in keys and k < nk:
+                found.append(L)
+        if not found:
+            break
+        drop = set()
+        for L in found:
+            drop.add(L.key())
+            drop.add((-L).key())
+        les = [L for L in les if L.key() not in drop]
+        eqs = found
+    return _solve_tail(les, nes, pending)
+
+
+def _eliminate(eqs, les, nes, pending):
     while eqs:
         L = eqs.pop()
         if not L.t:
@@ -376,6 +408,10 @@ def _solve(les, eqs, nes):
         pending = [x.subst(m) for x in pending]
         les = [x.subst(m) for x in les]
         nes = [x.subst(m) for x in nes]
+    return eqs, les, nes, pending
+
+
+def _solve_tail(les, nes, pending):
     for L in pending:
         les.append(L)
         les.append(-L)
